@@ -81,6 +81,9 @@ func (p *Path) builtin(name string, args []Value, site ssa.Instruction) Value {
 	case "recover":
 		return &IfaceV{}
 	case "close":
+		if p.guard != nil {
+			panic(mergeAbort{"close in merge region"})
+		}
 		p.events = append(p.events, Event{Name: "close", Args: args})
 		return nil
 	case "ssa:wrapnilchk":
@@ -461,6 +464,9 @@ func (p *Path) obligationAssume(c *Term, why string) {
 
 func (p *Path) chanSend(ch Value, v Value) {
 	c, _ := ch.(*ChanV)
+	if p.guard != nil {
+		panic(mergeAbort{"channel operation in merge region"})
+	}
 	p.events = append(p.events, Event{Name: "send", Args: []Value{c, v}})
 	if c != nil {
 		c.Buf = append(c.Buf, v)
@@ -469,6 +475,9 @@ func (p *Path) chanSend(ch Value, v Value) {
 
 func (p *Path) chanRecv(ch Value, commaOk bool, t types.Type) Value {
 	c, _ := ch.(*ChanV)
+	if p.guard != nil {
+		panic(mergeAbort{"channel operation in merge region"})
+	}
 	if c == nil || len(c.Buf) == 0 {
 		p.end("done", "blocking receive (no scripted value)")
 	}
@@ -481,6 +490,9 @@ func (p *Path) chanRecv(ch Value, commaOk bool, t types.Type) Value {
 }
 
 func (p *Path) selectOp(fr *Frame, in *ssa.Select) Value {
+	if p.guard != nil {
+		panic(mergeAbort{"select in merge region"})
+	}
 	// Scripted environment: a send case is always ready (queue model); otherwise
 	// default if non-blocking; otherwise first receive case with a buffered value.
 	tc := p.tc
